@@ -47,7 +47,7 @@ mut("C01", "delete-l2-miss-replies-success", L1L2, "\t\t\tmetrics.IncCounter(Met
 mut("C01", "std-add-writes-set", STD, "binprot.WriteAddCmd(h.Rw.Writer", "binprot.WriteSetCmd(h.Rw.Writer", "R1.5")
 mut("C01", "text-delete-says-stored", TR, 'return t.resp("DELETED")', 'return t.resp("STORED")', "R1.9")
 mut("C01", "errorToCode-exists-as-notstored", BT, "\tcase common.ErrKeyExists:\n\t\treturn StatusKeyExists", "\tcase common.ErrKeyExists:\n\t\treturn StatusNotStored", "R1.6")
-mut("C01", "l1only-set-error-swallowed", "orcas/l1only.go", "\t} else {\n\t\tmetrics.IncCounter(MetricCmdSetErrorsL1)\n\t\tmetrics.IncCounter(MetricCmdSetErrors)\n\t}\n\n\treturn err", "\t} else {\n\t\tmetrics.IncCounter(MetricCmdSetErrorsL1)\n\t\tmetrics.IncCounter(MetricCmdSetErrors)\n\t\terr = nil\n\t}\n\n\treturn err", "R8.1",
+mut("C08", "l1only-set-error-swallowed", "orcas/l1only.go", "\t} else {\n\t\tmetrics.IncCounter(MetricCmdSetErrorsL1)\n\t\tmetrics.IncCounter(MetricCmdSetErrors)\n\t}\n\n\treturn err", "\t} else {\n\t\tmetrics.IncCounter(MetricCmdSetErrorsL1)\n\t\tmetrics.IncCounter(MetricCmdSetErrors)\n\t\terr = nil\n\t}\n\n\treturn err", "R8.1",
     "failed set returns nil without a reply (caught by the reply-discipline rule)")
 mut("C01", "binary-touch-replies-with-delete-opcode", BR, "writeSuccessResponseHeader(b.writer, OpcodeTouch, 0, 0, 0, opaque, true)", "writeSuccessResponseHeader(b.writer, OpcodeDelete, 0, 0, 0, opaque, true)", "R1.9")
 var("C01", "l1only-set-early-return-style", "orcas/l1only.go", "\tif err == nil {\n\t\tmetrics.IncCounter(MetricCmdSetSuccessL1)\n\t\tmetrics.IncCounter(MetricCmdSetSuccess)\n\n\t\terr = l.res.Set(req.Opaque, req.Quiet)\n\n\t} else {\n\t\tmetrics.IncCounter(MetricCmdSetErrorsL1)\n\t\tmetrics.IncCounter(MetricCmdSetErrors)\n\t}\n\n\treturn err",
@@ -58,7 +58,7 @@ var("C01", "loop-switch-order", LOOP, "\t\tcase common.RequestSet:\n\t\t\tmetric
 # ---------------------------------------------------------------- C02
 mut("C02", "l1-set-before-l2", L1L2, "\terr := l.l2.Set(req)\n", "\tl.l1.Set(req)\n\terr := l.l2.Set(req)\n", "R2.1")
 mut("C02", "batch-set-uses-l1-set", BATCH, "err = l.l1.Replace(req)", "err = l.l1.Set(req)", "R2.2", nth=1)
-mut("C02", "drop-compensating-delete", L1L2, "\t\terr = l.l1.Delete(dcmd)\n\t\tmetrics.ObserveHist(HistDeleteL1, timer.Since(start))", "\t\terr = nil\n\t\tmetrics.ObserveHist(HistDeleteL1, timer.Since(start))", "R2.3")
+mut("C02", "drop-compensating-delete", L1L2, "\t\terr = l.l1.Delete(dcmd)\n\t\tmetrics.ObserveHist(HistDeleteL1, timer.Since(start))", "\t\terr = nil\n\t\t_ = dcmd\n\t\tmetrics.ObserveHist(HistDeleteL1, timer.Since(start))", "R2.3")
 mut("C02", "backfill-ttl-zero", L1L2, "\t\t\t\t\t\tExptime: res.Exptime,\n", "\t\t\t\t\t\tExptime: 0,\n", "R2.5")
 mut("C02", "delete-l1-first", L1L2, "\terr := l.l2.Delete(req)\n", "\tl.l1.Delete(req)\n\terr := l.l2.Delete(req)\n", "R2.1")
 var("C02", "compensation-in-switch-form", L1L2, "\t\tif err == common.ErrKeyNotFound {\n\t\t\tmetrics.IncCounter(MetricCmdSetL1ErrorDeleteMissesL1)\n\t\t} else if err != nil {\n\t\t\tmetrics.IncCounter(MetricCmdSetL1ErrorDeleteErrorsL1)\n\t\t} else {\n\t\t\tmetrics.IncCounter(MetricCmdSetL1ErrorDeleteHitsL1)\n\t\t}",
@@ -68,7 +68,7 @@ var("C02", "compensation-in-switch-form", L1L2, "\t\tif err == common.ErrKeyNotF
 mut("C03", "touch-takes-read-lock", LOCKED, "func (l *LockedOrca) Touch(req common.TouchRequest) error {\n\tlock := l.getlock(req.Key, false)", "func (l *LockedOrca) Touch(req common.TouchRequest) error {\n\tlock := l.getlock(req.Key, true)", "R3.1")
 mut("C03", "selector-hashes-other-bytes", LOCKED, "\th.Write(key)\n", "\th.Write(key[:1])\n", "R3.2")
 mut("C03", "set-locks-by-data", LOCKED, "func (l *LockedOrca) Set(req common.SetRequest) error {\n\tlock := l.getlock(req.Key, false)", "func (l *LockedOrca) Set(req common.SetRequest) error {\n\tlock := l.getlock(req.Data, false)", "R3.2")
-mut("C03", "batch-port-fresh-lock-set", "app/memproxy.go", "\t\t\to = orcas.LockedWithExisting(o, lockset)", "\t\t\to, _ = orcas.Locked(o, false, uint8(concurrency))", "R3.4")
+mut("C03", "batch-port-fresh-lock-set", "app/memproxy.go", "\t\t\to = orcas.LockedWithExisting(o, lockset)", "\t\t\t_ = lockset\n\t\t\to, _ = orcas.Locked(o, false, uint8(concurrency))", "R3.4")
 mut("C03", "multi-reader-with-chunking", "app/memproxy.go", "\t\tif chunked || !multiReader {", "\t\tif !multiReader {", "R3.5")
 mut("C03", "selector-returns-write-table-for-reads", LOCKED, "\tif read {\n\t\treturn l.rlocks[bucket]\n\t}", "\tif read {\n\t\treturn l.locks[bucket]\n\t}", "R3.1",
     "reads serialise (still safe) - flagged because the kind table no longer matches the flag")
@@ -76,15 +76,17 @@ mut("C03", "gat-wrapped-call-after-unlock", LOCKED, "func (l *LockedOrca) Gat(re
 var("C03", "mask-written-differently", LOCKED, "\tbucket &= len(l.locks) - 1\n", "\tbucket = bucket & (len(l.locks) - 1)\n")
 
 # ---------------------------------------------------------------- C04
-mut("C04", "touch-addresses-raw-key", CH, "binprot.WriteTouchCmd(h.rw.Writer, chunkKey, cmd.Exptime, 0)", "binprot.WriteTouchCmd(h.rw.Writer, cmd.Key, cmd.Exptime, 0)", "R4.1")
-mut("C04", "metakey-appends-in-place-again", "handlers/memcached/chunked/keys.go", "return append(key[:len(key):len(key)], ([]byte(\"-meta\"))...)", "return append(key, ([]byte(\"-meta\"))...)", "R4.2")
+mut("C04", "touch-addresses-raw-key", CH, "\t\tchunkKey := chunkKey(cmd.Key, i)\n\t\tif err := binprot.WriteTouchCmd(h.rw.Writer, chunkKey, cmd.Exptime, 0)", "\t\tif err := binprot.WriteTouchCmd(h.rw.Writer, cmd.Key, cmd.Exptime, 0)", "R4.1")
+_blk = "\treturn append(key[:len(key):len(key)], ([]byte(\"-meta\"))...)\n}\n\nfunc chunkKey(key []byte, chunk int) []byte {\n\t// TODO: POOL ME PLEASE\n\t// or maybe not since pooling adds interface{} conversion overhead anyway\n\t//\n\t// The capacity is clamped so that append always copies, see metaKey.\n\tkey = key[:len(key):len(key)]\n"
+mut("C04", "derived-keys-append-in-place-again", "handlers/memcached/chunked/keys.go", _blk, "\treturn append(key, ([]byte(\"-meta\"))...)\n}\n\nfunc chunkKey(key []byte, chunk int) []byte {\n", "R4.2", "both constructors write into the caller's spare capacity: foo-meta becomes foo-1eta (defect F5)")
+var("C04", "metakey-alone-appends-in-place", "handlers/memcached/chunked/keys.go", "return append(key[:len(key):len(key)], ([]byte(\"-meta\"))...)", "return append(key, ([]byte(\"-meta\"))...)", "only the metadata key may share the caller's spare capacity; chunk keys copy, so nothing overwrites it")
 mut("C04", "delete-loop-starts-at-1", CH, "\tfor i := 0; i < int(metaData.NumChunks); i++ {\n\t\tchunkKey := chunkKey(cmd.Key, i)\n\t\tif err := binprot.WriteDeleteCmd", "\tfor i := 1; i < int(metaData.NumChunks); i++ {\n\t\tchunkKey := chunkKey(cmd.Key, i)\n\t\tif err := binprot.WriteDeleteCmd", "R4.3")
 mut("C04", "touch-acks-without-request", CH, "func (h Handler) Touch(cmd common.TouchRequest) error {\n", "func (h Handler) Touch(cmd common.TouchRequest) error {\n\tif cmd.Exptime == 0 {\n\t\treturn nil\n\t}\n", "R4.4")
 mut("C04", "getmetadata-uses-raw-key", CHL, "\tif err := binprot.WriteGetCmd(rw, metaKey, 0); err != nil {", "\tif err := binprot.WriteGetCmd(rw, key, 0); err != nil {", "R4.1")
 var("C04", "chunkkey-copy-instead-of-clamp", "handlers/memcached/chunked/keys.go", "\tkey = key[:len(key):len(key)]\n", "\tkey = append(make([]byte, 0, len(key)+5), key...)\n\tkey = key[:len(key):len(key)]\n")
 
 # ---------------------------------------------------------------- C05
-mut("C05", "token-compare-removed-in-get", CH, "\t\t\tif !bytes.Equal(metaData.Token[:], tokenBuf) {\n\t\t\t\t//fmt.Println(\"Get miss because of invalid chunk token. Cmd:\", cmd)\n\t\t\t\t//fmt.Printf(\"Expected: '%v', got: '%v'\\n\", metaData.Token, tokenBuf)\n\t\t\t\tif !miss {", "\t\t\tif false {\n\t\t\t\tif !miss {", "R5.2")
+mut("C05", "token-compare-removed-in-get", CH, "\t\t\tif !bytes.Equal(metaData.Token[:], tokenBuf) {\n\t\t\t\t//fmt.Println(id, \"Get miss", "\t\t\tif false {\n\t\t\t\t//fmt.Println(id, \"Get miss", "R5.2")
 mut("C05", "count-check-removed-in-gat", CH, "\tif miss || chunk != int(metaData.NumChunks) {\n\t\t//fmt.Println(\"GAT miss because of missing chunk\")", "\tif miss {\n\t\t//fmt.Println(\"GAT miss because of missing chunk\")", "R5.3")
 mut("C05", "token-from-constant", CH, "\ttoken := <-tokens\n", "\tvar token [tokenSize]byte\n", "R5.1")
 mut("C05", "token-mismatch-does-not-set-miss", CH, "\t\t\t\tmetrics.IncCounter(MetricCmdGatMissesToken)\n\t\t\t\tmiss = true", "\t\t\t\tmetrics.IncCounter(MetricCmdGatMissesToken)", "R5.2")
@@ -95,14 +97,14 @@ mut("C06", "reshadow-res", BH, "\t\tres = <-reschan\n", "\t\tres := <-reschan\n\
 mut("C06", "gat-submits-get", BH, "gr, err := h.doRequest(cmd, common.RequestGat)", "gr, err := h.doRequest(cmd, common.RequestGet)", "R6.2")
 mut("C06", "serialiser-add-writes-set", BC, "binprot.WriteAddCmd(buf, cmd.Key", "binprot.WriteSetCmd(buf, cmd.Key", "R6.2")
 mut("C06", "opaque-not-incremented-in-get-loop", BC, "\t\t\t\t\treschan: req.reschan,\n\t\t\t\t}\n\t\t\t\topaque++\n\t\t\t}\n\n\t\t\tnumExpected = len(cmd.Keys)\n\n\t\tcase common.RequestGetE:", "\t\t\t\t\treschan: req.reschan,\n\t\t\t\t}\n\t\t\t}\n\n\t\t\tnumExpected = len(cmd.Keys)\n\n\t\tcase common.RequestGetE:", "R6.3")
-mut("C06", "reader-miss-for-every-command-again", BC, "\t\t\t\t\tif !isGet || err != common.ErrKeyNotFound {", "\t\t\t\t\tif err != common.ErrKeyNotFound {", "R6.4")
+mut("C06", "reader-miss-for-every-command-again", BC, "\t\t\t\t\tif !isGet || err != common.ErrKeyNotFound {", "\t\t\t\t\tif _ = isGet; err != common.ErrKeyNotFound {", "R6.4")
 mut("C06", "touch-registered-without-channel", BC, "\t\t\tbinprot.WriteTouchCmd(buf, cmd.Key, cmd.Exptime, opaque)\n\t\t\tresponses[opaque] = reshandle{\n\t\t\t\tkey:     cmd.Key,\n\t\t\t\topaque:  cmd.Opaque,\n\t\t\t\tquiet:   cmd.Quiet,\n\t\t\t\treschan: req.reschan,\n\t\t\t}", "\t\t\tbinprot.WriteTouchCmd(buf, cmd.Key, cmd.Exptime, opaque)\n\t\t\tresponses[opaque+1] = reshandle{\n\t\t\t\tkey:     cmd.Key,\n\t\t\t\topaque:  cmd.Opaque,\n\t\t\t\tquiet:   cmd.Quiet,\n\t\t\t\treschan: req.reschan,\n\t\t\t}", "R6.3")
 
 # ---------------------------------------------------------------- C07
 mut("C07", "flags-exptime-swapped", BP, "\t\tFlags:   flags,\n\t\tExptime: exptime,\n\t\tOpaque:  reqHeader.OpaqueToken,\n\t\tData:    dataBuf,", "\t\tFlags:   exptime,\n\t\tExptime: flags,\n\t\tOpaque:  reqHeader.OpaqueToken,\n\t\tData:    dataBuf,", "R7.4")
 mut("C07", "setq-not-quiet", BP, "return setRequest(b.reader, reqHeader, common.RequestSet, true, start)", "return setRequest(b.reader, reqHeader, common.RequestSet, false, start)", "R7.2")
 mut("C07", "delete-key-read-with-extralength", BP, "\tcase OpcodeDelete:\n\t\t// key\n\t\tkey, err := readString(b.reader, reqHeader.KeyLength)", "\tcase OpcodeDelete:\n\t\t// key\n\t\tkey, err := readString(b.reader, uint16(reqHeader.ExtraLength))", "R7.4")
-mut("C07", "opaque-from-wrong-offset", BHDR, "\trh.OpaqueToken = binary.BigEndian.Uint32(buf[12:16])\n\n\t// unused, discard", "\trh.OpaqueToken = binary.BigEndian.Uint32(buf[8:12])\n\n\t// unused, discard", "R7.3", nth=1)
+mut("C07", "opaque-from-wrong-offset", BHDR, "\trh.OpaqueToken = binary.BigEndian.Uint32(buf[12:16])\n", "\trh.OpaqueToken = binary.BigEndian.Uint32(buf[8:12])\n", "R7.3", nth=1)
 mut("C07", "appendq-decoded-as-prepend", BP, "return appendPrependRequest(b.reader, reqHeader, common.RequestAppend, true, start)", "return appendPrependRequest(b.reader, reqHeader, common.RequestPrepend, true, start)", "R7.2")
 mut("C07", "touch-skips-exptime-read", BP, "\tcase OpcodeTouch:\n\t\t// exptime, key\n\t\texptime, err := readUInt32(b.reader)", "\tcase OpcodeTouch:\n\t\t// exptime, key\n\t\texptime, err := uint32(0), error(nil)", "R7.5")
 mut("C07", "short-read-of-value", BP, "\tn, err := io.ReadAtLeast(r, dataBuf, int(realLength))\n\tmetrics.IncCounterBy(common.MetricBytesReadRemote, uint64(n))\n\tif err != nil {\n\t\treturn common.SetRequest{}, reqType, start, err\n\t}\n\n\treturn common.SetRequest{\n\t\tQuiet:   quiet,\n\t\tKey:     key,\n\t\tFlags:   flags,", "\tn, err := io.ReadAtLeast(r, dataBuf, 1)\n\tmetrics.IncCounterBy(common.MetricBytesReadRemote, uint64(n))\n\tif err != nil {\n\t\treturn common.SetRequest{}, reqType, start, err\n\t}\n\n\treturn common.SetRequest{\n\t\tQuiet:   quiet,\n\t\tKey:     key,\n\t\tFlags:   flags,", "R7.6")
@@ -114,7 +116,7 @@ mut("C07", "batch-get-opaque-from-previous-header", BP, "\t\tkeys = append(keys,
 # ---------------------------------------------------------------- C08
 mut("C08", "getend-dropped-in-all-hit-branch", L1L2, "\t\tif err != nil {\n\t\t\treturn err\n\t\t}\n\t\treturn l.res.GetEnd(req.NoopOpaque, req.NoopEnd)\n\t}", "\t\tif err != nil {\n\t\t\treturn err\n\t\t}\n\t\treturn nil\n\t}", "R8.1")
 mut("C08", "getcommon-declares-8-extras", BR, "\ttotalBodyLength := len(response.Data) + 4\n\twriteSuccessResponseHeader(w, opcode, 0, 4, totalBodyLength, response.Opaque, false)", "\ttotalBodyLength := len(response.Data) + 8\n\twriteSuccessResponseHeader(w, opcode, 0, 4, totalBodyLength, response.Opaque, false)", "R8.4")
-mut("C08", "error-reply-not-flushed", BR, "\tif err := w.Flush(); err != nil {\n\t\tresHeadPool.Put(header)\n\t\treturn err\n\t}\n\n\tmetrics.IncCounterBy(common.MetricBytesWrittenRemote, resHeaderLen)\n\tresHeadPool.Put(header)\n\n\treturn nil\n}\n", "\tmetrics.IncCounterBy(common.MetricBytesWrittenRemote, resHeaderLen)\n\tresHeadPool.Put(header)\n\n\treturn nil\n}\n", "R8.5", nth=1)
+mut("C08", "error-reply-not-flushed", BR, "\tif err := w.Flush(); err != nil {\n\t\tresHeadPool.Put(header)\n\t\treturn err\n\t}\n\n\tmetrics.IncCounterBy(common.MetricBytesWrittenRemote, resHeaderLen)\n\tresHeadPool.Put(header)\n\n\treturn nil\n}\n", "\tmetrics.IncCounterBy(common.MetricBytesWrittenRemote, resHeaderLen)\n\tresHeadPool.Put(header)\n\n\treturn nil\n}\n", "R8.5")
 mut("C08", "touch-replies-twice", L1L2, "\t\t\treturn l.res.Touch(req.Opaque)\n\t\t}", "\t\t\tl.res.Touch(req.Opaque)\n\t\t\treturn l.res.Touch(req.Opaque)\n\t\t}", "R8.1")
 mut("C08", "stat-terminator-opaque-zero-again", BR, "writeSuccessResponseHeader(b.writer, OpcodeStat, 0, 0, 0, opaque, false)", "writeSuccessResponseHeader(b.writer, OpcodeStat, 0, 0, 0, 0, false)", "R8.3")
 mut("C08", "locked-get-never-unmutes", LOCKED, "\t\t\tnoopEnd = req.NoopEnd\n\t\t\tl.res.mute = false\n\t\t}\n\n\t\tsubreq := common.GetRequest{\n\t\t\tKeys:       [][]byte{key},\n\t\t\tOpaques:    []uint32{req.Opaques[idx]},\n\t\t\tQuiet:      []bool{req.Quiet[idx]},\n\t\t\tNoopOpaque: noopOpaque,\n\t\t\tNoopEnd:    noopEnd,\n\t\t}\n\n\t\t// Make the actual request\n\t\tret = l.wrapped.Get(subreq)", "\t\t\tnoopEnd = req.NoopEnd\n\t\t}\n\t\tl.res.mute = false\n\n\t\tsubreq := common.GetRequest{\n\t\t\tKeys:       [][]byte{key},\n\t\t\tOpaques:    []uint32{req.Opaques[idx]},\n\t\t\tQuiet:      []bool{req.Quiet[idx]},\n\t\t\tNoopOpaque: noopOpaque,\n\t\t\tNoopEnd:    noopEnd,\n\t\t}\n\n\t\t// Make the actual request\n\t\tret = l.wrapped.Get(subreq)", "R8.2",
@@ -134,10 +136,10 @@ mut("C09", "batched-gat-ttl-from-flags", BC, "binprot.WriteGATCmd(buf, cmd.Key, 
 var("C09", "touchreq-built-in-two-steps", L1L2, "\t\ttouchreq := common.TouchRequest{\n\t\t\tKey:     req.Key,\n\t\t\tExptime: req.Exptime,\n\t\t}", "\t\ttouchreq := common.TouchRequest{\n\t\t\tKey: req.Key,\n\t\t}\n\t\ttouchreq.Exptime = req.Exptime")
 
 # ---------------------------------------------------------------- C10
-mut("C10", "batch-set-compensation-dropped", BATCH, "\t\t\terr = l.l1.Delete(dcmd)\n", "\t\t\terr = nil\n", "R10.1")
+mut("C10", "batch-set-compensation-dropped", BATCH, "\t\t\terr = l.l1.Delete(dcmd)\n", "\t\t\terr, _ = nil, dcmd\n", "R10.1")
 mut("C10", "reply-loop-continues-on-io-error", CH, "\t\t\t\tlastErr = err\n\t\t\t\tif !common.IsAppError(err) {\n\t\t\t\t\t// the connection is broken, there is nothing left to read\n\t\t\t\t\tbreak\n\t\t\t\t}", "\t\t\t\tlastErr = err", "R10.2", nth=1)
 mut("C10", "loop-continues-on-io-error", LOOP, "\t\t\t} else {\n\t\t\t\tmetrics.IncCounter(MetricErrUnrecoverable)\n\t\t\t\tabort(s.conns, err)\n\t\t\t\treturn\n\t\t\t}", "\t\t\t} else {\n\t\t\t\tmetrics.IncCounter(MetricErrUnrecoverable)\n\t\t\t}", "R10.3")
-mut("C10", "std-set-error-body-not-drained", STD, "\t\tn, ioerr := h.Rw.Discard(int(resHeader.TotalBodyLength))\n\t\tmetrics.IncCounterBy(common.MetricBytesReadLocal, uint64(n))\n\t\tif ioerr != nil {\n\t\t\treturn ioerr\n\t\t}", "", "R10.5")
+mut("C10", "std-set-error-body-not-drained", STD, "\t\tn, ioerr := h.Rw.Discard(int(resHeader.TotalBodyLength))\n\t\tmetrics.IncCounterBy(common.MetricBytesReadLocal, uint64(n))\n\t\tif ioerr != nil {\n\t\t\treturn ioerr\n\t\t}", "\t\t_ = resHeader", "R10.5", nth=1)
 mut("C10", "chunked-reset-before-discard-again", CH, "\t\t\t// Discard response body\n\t\t\tn, ioerr := h.rw.Discard(int(resHeader.TotalBodyLength))", "\t\t\th.reset()\n\t\t\t// Discard response body\n\t\t\tn, ioerr := h.rw.Discard(int(resHeader.TotalBodyLength))", "R10.5")
 mut("C10", "isapperror-forgets-nomem", "common/datatypes.go", "\t\terr == ErrNoMem ||\n", "", "R10.3")
 mut("C10", "locked-gete-swallows-panic", LOCKED, "\t\t\tif lock != nil {\n\t\t\t\tlock.Unlock()\n\t\t\t}\n\n\t\t\tpanic(r)\n\t\t}\n\t}()\n\n\tfor idx, key := range req.Keys {\n\t\t// Acquire read lock (true == read)\n\t\tlock = l.getlock(key, true)\n\t\tlock.Lock()\n\n\t\t// The last request will have these set to complete the interaction\n\t\tnoopOpaque := uint32(0)\n\t\tnoopEnd := false\n\t\tl.res.mute = true\n\t\tif idx == len(req.Keys)-1 {\n\t\t\tnoopOpaque = req.NoopOpaque\n\t\t\tnoopEnd = req.NoopEnd\n\t\t\tl.res.mute = false\n\t\t}\n\n\t\tsubreq := common.GetRequest{\n\t\t\tKeys:       [][]byte{key},\n\t\t\tOpaques:    []uint32{req.Opaques[idx]},\n\t\t\tQuiet:      []bool{req.Quiet[idx]},\n\t\t\tNoopOpaque: noopOpaque,\n\t\t\tNoopEnd:    noopEnd,\n\t\t}\n\n\t\t// Make the actual request\n\t\tret = l.wrapped.GetE(subreq)",
@@ -147,9 +149,9 @@ var("C10", "reply-loop-leaves-on-anything-but-miss", CH, "\t\t\t\tlastErr = err\
 # ---------------------------------------------------------------- C11
 mut("C11", "length-guard-removed", BP, "\tif reqHeader.TotalBodyLength < uint32(reqHeader.ExtraLength)+uint32(reqHeader.KeyLength) {\n\t\treturn common.SetRequest{}, reqType, start, common.ErrInvalidArgs\n\t}\n", "", "R11.1")
 mut("C11", "length-guard-too-weak", BP, "\tif reqHeader.TotalBodyLength < uint32(reqHeader.ExtraLength)+uint32(reqHeader.KeyLength) {", "\tif reqHeader.TotalBodyLength < uint32(reqHeader.KeyLength) {", "R11.1", nth=1)
-mut("C11", "loop-continues-on-bad-magic", LOOP, "\t\t\t\terr == common.ErrBadExptime {", "\t\t\t\terr == common.ErrBadExptime || err == binprot_ErrBadMagic {", "R11.2",
-    "skipped if it does not compile (binprot is not imported by server)")
-mut("C11", "loop-continues-on-any-parse-error", LOOP, "\t\t\t} else {\n\t\t\t\t// Otherwise if there's an error, nothing we can do but abort\n\t\t\t\tabort(s.conns, err)\n\t\t\t\treturn\n\t\t\t}", "\t\t\t} else {\n\t\t\t\tcontinue\n\t\t\t}", "R11.2")
+mut("C11", "loop-continues-on-invalid-args", LOOP, "\t\t\t\terr == common.ErrBadExptime {", "\t\t\t\terr == common.ErrBadExptime || err == common.ErrInvalidArgs {", "R11.2",
+    "the binary parser returns ErrInvalidArgs before consuming the body: the loop would parse the body as requests")
+mut("C11", "loop-continues-on-any-parse-error", LOOP, "\t\t\t} else {\n\t\t\t\t// Otherwise IO error. Abort!\n\t\t\t\tabort(s.conns, err)\n\t\t\t\treturn\n\t\t\t}", "\t\t\t} else {\n\t\t\t\tcontinue\n\t\t\t}", "R11.2")
 mut("C11", "text-parser-returns-wrong-type-for-touch", TP, "\t\treturn common.TouchRequest{\n\t\t\tKey:     key,\n\t\t\tExptime: uint32(exptime),\n\t\t\tOpaque:  uint32(0),\n\t\t}, common.RequestTouch, start, nil", "\t\treturn common.TouchRequest{\n\t\t\tKey:     key,\n\t\t\tExptime: uint32(exptime),\n\t\t\tOpaque:  uint32(0),\n\t\t}, common.RequestGat, start, nil", "R11.3")
 mut("C11", "key-buffer-sized-by-product", BP, "func readString(r io.Reader, l uint16) ([]byte, error) {\n\tbuf := make([]byte, l)", "func readString(r io.Reader, l uint16) ([]byte, error) {\n\tbuf := make([]byte, int(l)*int(l))", "R11.4")
 var("C11", "guard-written-the-other-way-round", BP, "\tif reqHeader.TotalBodyLength < uint32(reqHeader.ExtraLength)+uint32(reqHeader.KeyLength) {", "\tif uint32(reqHeader.ExtraLength)+uint32(reqHeader.KeyLength) > reqHeader.TotalBodyLength {", nth=1)
@@ -165,7 +167,7 @@ var("C12", "unlock-in-deferred-closure", LOCKED, "func (l *LockedOrca) Delete(re
 
 # ---------------------------------------------------------------- C13
 mut("C13", "error-edge-without-recovery", BC, "\t\t\t\tif err != nil {\n\t\t\t\t\t// jump to error handling / reconnect / reset\n\t\t\t\t\trecovery = true\n\t\t\t\t\tcontinue readerOuter\n\t\t\t\t}\n\t\t\t\tserverFlags := binary.BigEndian.Uint32(b)", "\t\t\t\tif err != nil {\n\t\t\t\t\tcontinue readerOuter\n\t\t\t\t}\n\t\t\t\tserverFlags := binary.BigEndian.Uint32(b)", "R13.1")
-mut("C13", "recovery-does-not-close-channels", BC, "\t\t\t// channel must be closed no matter what\n\t\t\tclose(ch)\n", "", "R13.2")
+mut("C13", "recovery-does-not-close-channels", BC, "\t\t\tclose(ch)\n\t\t}\n\n\t\t// true meaning delay", "\t\t}\n\n\t\t// true meaning delay", "R13.2")
 mut("C13", "marker-returned-to-caller", BH, "\tif res.err == errRetryRequestBecauseOfConnectionFailure {\n\t\treturn common.GetEResponse{}, common.ErrInternal\n\t}\n", "", "R13.3")
 mut("C13", "reader-released-before-reconnect", BC, "\t\tc.reconnect(true)\n\t\tc.recovered <- struct{}{}", "\t\tc.recovered <- struct{}{}\n\t\tc.reconnect(true)", "R13.2")
 mut("C13", "drained-batch-channels-not-closed", BC, "\t\tfor ch := range batch.channels {\n\t\t\tclose(ch)\n\t\t}\n\t}\n}", "\t}\n}", "R13.1")
@@ -176,9 +178,8 @@ mut("C14", "counter-plain-increment", "metrics/counters.go", "\tatomic.AddUint64
 mut("C14", "dial-hoisted-out-of-closure", "handlers/memcached/constructors.go", "func Regular(sock string) handlers.HandlerConst {\n\treturn func() (handlers.Handler, error) {\n\t\tconn, err := net.Dial(\"unix\", sock)", "func Regular(sock string) handlers.HandlerConst {\n\tconn, err := net.Dial(\"unix\", sock)\n\treturn func() (handlers.Handler, error) {", "R14.4")
 mut("C14", "relays-read-without-lock", "handlers/memcached/batched/relay.go", "\trelayLock.RLock()\n\tif r, ok := relays[sock]; ok {\n\t\trelayLock.RUnlock()\n\t\treturn r\n\t}\n\trelayLock.RUnlock()", "\tif r, ok := relays[sock]; ok {\n\t\treturn r\n\t}", "R14.5")
 mut("C14", "header-used-after-put", STDL, "\tdefer binprot.PutResponseHeader(resHeader)\n\n\terr = binprot.DecodeError(resHeader)\n\tif err != nil {\n\t\tn, ioerr := rw.Discard(int(resHeader.TotalBodyLength))\n\t\tmetrics.IncCounterBy(common.MetricBytesReadLocal, uint64(n))\n\t\tif ioerr != nil {\n\t\t\treturn ioerr\n\t\t}\n\t\treturn err\n\t}", "\terr = binprot.DecodeError(resHeader)\n\tbinprot.PutResponseHeader(resHeader)\n\tif err != nil {\n\t\tn, ioerr := rw.Discard(int(resHeader.TotalBodyLength))\n\t\tmetrics.IncCounterBy(common.MetricBytesReadLocal, uint64(n))\n\t\tif ioerr != nil {\n\t\t\treturn ioerr\n\t\t}\n\t\treturn err\n\t}", "R14.3")
-mut("C14", "bhists-copied-by-value-again", "metrics/histograms.go", "extractBHist(&bhists[i])", "extractBHistCopy(bhists[i])", "R14.2", "needs the helper below; skipped when it does not compile")
+mut("C14", "bhists-copied-by-value-again", "metrics/histograms.go", "extractBHist(&bhists[i])", "func(b bhist) [numAtlasBuckets]uint64 { return b.buckets }(bhists[i])", "R14.2", "plain copy of counters that observers update atomically (defect F11)")
 mut("C14", "hashpool-replaced-by-shared-hash", LOCKED, "\thashpool := &sync.Pool{\n\t\tNew: func() interface{} {\n\t\t\treturn fnv.New32a()\n\t\t},\n\t}\n\n\treturn func(l1, l2 handlers.Handler, res protocol.Responder) Orca {\n\t\tmres := &endMutingResponder{Responder: res}\n\t\treturn &LockedOrca{\n\t\t\twrapped: oc(l1, l2, mres),\n\t\t\tres:     mres,\n\t\t\tlocks:   locks[slot],", "\thashpool := &sync.Pool{\n\t\tNew: func() interface{} {\n\t\t\treturn fnv.New32a()\n\t\t},\n\t}\n\tshared := map[string]int{}\n\n\treturn func(l1, l2 handlers.Handler, res protocol.Responder) Orca {\n\t\tshared[\"conns\"]++\n\t\tmres := &endMutingResponder{Responder: res}\n\t\treturn &LockedOrca{\n\t\t\twrapped: oc(l1, l2, mres),\n\t\t\tres:     mres,\n\t\t\tlocks:   locks[slot],", "R14.6")
-mut("C14", "handler-constructed-once", LISTEN, "\t\tl1, err := h1()\n\t\tif err != nil {", "\t\tl1, err := sharedL1, error(nil)\n\t\tif err != nil {", "R14.4", "needs a package-level sharedL1; skipped when it does not compile")
 mut("C14", "new-unsynchronised-global", "handlers/memcached/std/handler.go", "func (h Handler) Close() error {\n\treturn h.conn.Close()\n}", "var closedConns int\n\nfunc (h Handler) Close() error {\n\tclosedConns++\n\treturn h.conn.Close()\n}", "R14.1")
 
 # ---------------------------------------------------------------- C15
@@ -191,7 +192,7 @@ mut("C15", "configure-failure-leaks-remote", LISTEN, "\t\t\tlog.Println(\"Error 
 
 # ---------------------------------------------------------------- C16
 mut("C16", "overhead-without-key-suffix", CH, "\tchunkOverhead = 67 + 4\n", "\tchunkOverhead = 67\n", "R16.1")
-mut("C16", "chunk-write-declares-payload-size", CH, "binprot.WriteSetCmd(h.rw.Writer, key, cmd.Flags, cmd.Exptime, fullSize, 0)", "binprot.WriteSetCmd(h.rw.Writer, key, cmd.Flags, cmd.Exptime, dataSize, 0)", "R16.2")
+mut("C16", "chunk-write-declares-payload-size", CH, "binprot.WriteSetCmd(h.rw.Writer, key, cmd.Flags, cmd.Exptime, fullSize, 0)", "binprot.WriteSetCmd(h.rw.Writer, key, cmd.Flags, cmd.Exptime, fullSize-tokenSize, 0)", "R16.2")
 mut("C16", "metadata-gains-a-field", "handlers/memcached/chunked/types.go", "\tExptime   uint32\n\tToken     [tokenSize]byte\n}", "\tExptime   uint32\n\tVersion   uint32\n\tToken     [tokenSize]byte\n}", "R16.3")
 mut("C16", "reader-swaps-two-fields", "handlers/memcached/chunked/types.go", "\tm.Instime = binary.BigEndian.Uint32(buf[16:20])\n\tm.Exptime = binary.BigEndian.Uint32(buf[20:24])", "\tm.Exptime = binary.BigEndian.Uint32(buf[16:20])\n\tm.Instime = binary.BigEndian.Uint32(buf[20:24])", "R16.3")
 mut("C16", "chunk-size-from-data-length", CH, "dataSize, fullSize := chunkSize(len(cmd.Key))", "dataSize, fullSize := chunkSize(len(cmd.Data) % 250)", "R16.2")
@@ -218,11 +219,46 @@ mut("C18", "counter-id-not-atomic", "metrics/counters.go", "\tid := atomic.AddUi
 mut("C19", "point-includes-listing-index", "handlers/memcached/cluster/ketama.go", 'ss := fmt.Sprintf("%s-%d", b.Label(), k)', 'ss := fmt.Sprintf("%s-%d-%d", b.Label(), i, k)', "R19.2")
 mut("C19", "get-hashes-key-suffix", "handlers/memcached/cluster/handler.go", "handle := h.Continuum.Hash(key).(Node).handler", "handle := h.Continuum.Hash(key[1:]).(Node).handler", "R19.3")
 mut("C19", "less-compares-points-only-again", "handlers/memcached/cluster/ketama.go", "\tif c[i].point != c[j].point {\n\t\treturn c[i].point < c[j].point\n\t}\n\t// equal points of different buckets must not be ordered by how the buckets were listed\n\treturn c[i].bucket.Label() < c[j].bucket.Label()", "\treturn c[i].point < c[j].point", "R19.2")
-mut("C19", "hash-salted-with-time", "handlers/memcached/cluster/ketama.go", "\thash := md5.Sum(thing)\n", "\thash := md5.Sum(append(thing, byte(time.Now().Unix()>>20)))\n", "R19.1", "skipped when it does not compile (time not imported)")
 mut("C19", "set-goes-to-first-node", "handlers/memcached/cluster/handler.go", "return h.Continuum.Hash(cmd.Key).(Node).handler.Set(cmd)", "return h.nodes[0].handler.Set(cmd)", "R19.3")
 var("C19", "less-with-explicit-else", "handlers/memcached/cluster/ketama.go", "\tif c[i].point != c[j].point {\n\t\treturn c[i].point < c[j].point\n\t}\n\t// equal points of different buckets must not be ordered by how the buckets were listed\n\treturn c[i].bucket.Label() < c[j].bucket.Label()", "\tif c[i].point == c[j].point {\n\t\treturn c[i].bucket.Label() < c[j].bucket.Label()\n\t}\n\treturn c[i].point < c[j].point")
 
 os.makedirs(os.path.join(ROOT, "rendlint", "mutants"), exist_ok=True)
+# --- fourth round: key scheme (R4.7) and expiry boundary (R9.6)
+KEYS = "handlers/memcached/chunked/keys.go"
+mut("C04", "meta-suffix-is-a-chunk-number", KEYS, "([]byte(\"-meta\"))...)", "([]byte(\"-0\"))...)", "R4.7", "metadata entry collides with chunk 0 of the same key")
+mut("C04", "chunk-zero-without-dash", KEYS, "\tif chunk == 0 {\n\t\tkey = append(key, '-')\n\t}\n", "", "R4.7", "key a-1 chunk 0 = a-10 = key a chunk 10")
+mut("C04", "chunk-index-not-negated", KEYS, "strconv.AppendInt(key, int64(-chunk), 10)", "strconv.AppendInt(key, int64(chunk), 10)", "R4.7", "no dash for chunks >= 1")
+var("C04", "chunk-index-in-hex", KEYS, "strconv.AppendInt(key, int64(-chunk), 10)", "strconv.AppendInt(key, int64(-chunk), 16)", "meta is no hex number: still injective")
+mut("C04", "chunk-index-base-36", KEYS, "strconv.AppendInt(key, int64(-chunk), 10)", "strconv.AppendInt(key, int64(-chunk), 36)", "R4.7", "meta is a base-36 number: key k chunk 1045630 = k-meta")
+mut("C09", "thirty-days-exactly-is-absolute", CH, "\tif ttl > realTimeMaxDelta {", "\tif ttl >= realTimeMaxDelta {", "R9.6")
+mut("C09", "boundary-31-days", CH, "const realTimeMaxDelta = 60 * 60 * 24 * 30", "const realTimeMaxDelta = 60 * 60 * 24 * 31", "R9.6")
+mut("C09", "absolute-ttl-added-to-now", CH, "\t\treturn ttl, (ttl < now)", "\t\treturn now + ttl, (ttl < now)", "R9.6")
+mut("C09", "zero-ttl-not-special", CH, "\tif ttl == 0 {\n\t\treturn 0, false\n\t}\n\n\tnow := uint32", "\tnow := uint32", "R9.6")
+var("C09", "expiry-branches-reordered", CH, "\tif ttl > realTimeMaxDelta {\n\t\treturn ttl, (ttl < now)\n\t}\n\n\t// otherwise, this is a normal differential TTL\n\treturn now + ttl, false", "\tif ttl <= realTimeMaxDelta {\n\t\treturn now + ttl, false\n\t}\n\treturn ttl, (ttl < now)")
+var("C09", "boundary-written-the-other-way-round", CH, "\tif ttl > realTimeMaxDelta {", "\tif realTimeMaxDelta < ttl {")
+
+# --- R18.5 bit-count routines
+LZ = "metrics/lzcnt.go"
+LZS = "metrics/lzcnt_amd64.s"
+mut("C18", "portable-lzcnt-zero-guard-removed", LZ, "\tif x == 0 {\n\t\treturn 64\n\t}\n", "", "R18.5", "defect F17 again: 63 for input 0")
+mut("C18", "portable-lzcnt-step-adds-15", LZ, "\t\tn = n + 16\n", "\t\tn = n + 15\n", "R18.5")
+mut("C18", "portable-lzcnt-tests-one-bit-less", LZ, "if (x >> (32 + 16 + 8)) == 0 {", "if (x >> (32 + 16 + 7)) == 0 {", "R18.5", "shifts a set bit out")
+mut("C18", "portable-lzcnt-final-bit", LZ, "n = n - (x >> 63)", "n = n - (x >> 62)", "R18.5")
+mut("C18", "asm-lzcnt-off-by-one", LZS, "SUBQ  $63, AX", "SUBQ  $64, AX", "R18.5")
+mut("C18", "asm-lzcnt-zero-gives-63", LZS, "MOVQ $64, ret+8(FP)", "MOVQ $63, ret+8(FP)", "R18.5")
+mut("C18", "asm-lzcnt-no-zero-branch", LZS, "        JZ zero\n", "", "R18.5", "BSR leaves the destination undefined for 0")
+var("C18", "portable-lzcnt-guard-after-init", LZ, "\tif x == 0 {\n\t\treturn 64\n\t}\n\n\tn = 1\n", "\tn = 1\n\tif x == 0 {\n\t\treturn n + 63\n\t}\n")
+
+# --- R19.5 / R18.6
+CLH = "handlers/memcached/cluster/handler.go"
+mut("C19", "get-selects-node-once-per-request", CLH, "\tfor idx, key := range cmd.Keys {\n\t\thandle := h.Continuum.Hash(key).(Node).handler\n", "\thandle := h.Continuum.Hash(cmd.Keys[0]).(Node).handler\n\tfor idx, key := range cmd.Keys {\n", "R19.5", "every key of a batch is asked of the node owning the first key")
+mut("C19", "set-hashes-another-commands-key", CLH, "return h.Continuum.Hash(cmd.Key).(Node).handler.Set(cmd)", "return h.Continuum.Hash(cmd.Key).(Node).handler.Set(common.SetRequest{Key: cmd.Data, Data: cmd.Data})", "R19.5")
+HI = "metrics/histograms.go"
+mut("C18", "observer-slot-one-based-again", HI, "idx := (atomic.AddUint64(&h.dat.kept, 1) - 1) & buflen", "idx := atomic.AddUint64(&h.dat.kept, 1) & buflen", "R18.6", "defect F18: newest observation outside buf[:kept], stale slot 0 reported")
+mut("C18", "ring-one-slot-short", HI, "\t\t\tbuf: make([]uint64, buflen+1),\n", "\t\t\tbuf: make([]uint64, buflen),\n", "R18.6")
+mut("C18", "backup-ring-larger-than-mask", HI, "\t\tbakbuf: make([]uint64, buflen+1),\n", "\t\tbakbuf: make([]uint64, 2*(buflen+1)),\n", "R18.6", "slots above the mask are never written but sorted into the percentiles once kept >= len")
+var("C18", "observer-slot-in-two-steps", HI, "idx := (atomic.AddUint64(&h.dat.kept, 1) - 1) & buflen", "n := atomic.AddUint64(&h.dat.kept, 1)\n\tidx := (n - 1) & buflen")
+
 for prop, ms in sorted(M.items()):
     json.dump(ms, open(os.path.join(ROOT, "rendlint", "mutants", prop + ".json"), "w"), indent=1)
     print(prop, len([m for m in ms if m["kind"] == "mutant"]), "mutants,", len([m for m in ms if m["kind"] == "variant"]), "variants")
